@@ -4,10 +4,12 @@ cd "$(dirname "$0")/.."
 N=${1:-12}; shift
 IDS=${@:-$(python3 -c "import json;print(' '.join(c['property_id'] for c in json.load(open('MANIFEST.json'))['checks']))")}
 IDX=$(seq -s, 0 $((N-1)))
+RIDX=$(seq -s, $((N-1)) -1 0)   # hash seed 2 also runs the cases in reverse order (order dependence inside one process)
 rc=0
 for id in $IDS; do
   for hs in 0 1 2; do
-    ( PYTHONHASHSEED=$hs /venv/bin/python simlib/main.py digests $id quick $IDX 2>/dev/null | grep '^DIGESTS' > /tmp/det-$id-$hs.txt ) &
+    if [ $hs = 2 ]; then ORDER=$RIDX; else ORDER=$IDX; fi
+    ( PYTHONHASHSEED=$hs /venv/bin/python simlib/main.py digests $id quick $ORDER 2>/dev/null | grep '^DIGESTS' | /venv/bin/python -c "import json,sys; d=json.loads(sys.stdin.read()[8:]); print('DIGESTS '+json.dumps(dict(sorted(d.items(), key=lambda kv:int(kv[0])))))" > /tmp/det-$id-$hs.txt ) &
   done
 done
 wait
